@@ -26,7 +26,12 @@ RULE = ('value spaces, each indexed 0..size-1 and enumerated completely for ever
         'documented mutator (arrayPush, arraySet, arrayPop, arrayShift, arrayDelete, arrayExtend, objectSet new/existing key, objectDelete, '
         'objectAssign), direct and inside a script: parse T, mutate, parse T, mutate, parse T - every result is the value of T and no two '
         'results share a container; stringify v, mutate v, stringify v, stringify a fresh copy of the original - every text decodes to '
-        'the value at that moment; non-trivial when the mutation changed the value. (pairs) every ordered pair of values built from the '
+        'the value at that moment; non-trivial when the mutation changed the value. Failed calls (same family): for every good value o of a '
+        'small set and every unserialisable value f built around o (inf / -inf / nan at top level and in 8 array/object positions, 6 kinds '
+        'of cycle, mixed int/str keys) the histories [fail, ok], [fail, fail, ok], [ok, fail, ok], compact and indented, direct and in a '
+        'script: the outcome of the failing call is not compared; afterwards the very containers of each failing value with the offending '
+        'member removed, o itself, and a fresh copy of o made after the failing values were dropped must serialise faithfully; likewise '
+        'jsonParse(T) around jsonParse of 10 invalid texts; non-trivial when the call that should fail did fail. (pairs) every ordered pair of values built from the '
         'colliding leaves 1, 1.0, true, "1", null, 0, false, "", -0.0, "true", "null": interleaved parses of both texts and '
         'stringification of short-lived temporaries (id reuse). (indents) a 2 220-value set under every indent argument null, -1, 0, 1..12 in '
         'both tiers, int in the direct call and float in the script.')
@@ -776,6 +781,8 @@ def check_hstringify(case, acc):
 
 def fam_history(arg):
     tier, kind, start, stop = arg
+    if kind in ('fail', 'failparse'):
+        return fam_history_fail(arg)
     acc = Acc('history')
     sp = hist_space(tier)
     for idx in range(start, stop):
@@ -795,6 +802,281 @@ def fam_history(arg):
         if idx == start:
             acc.sample({'kind': kind, 'value': label_of(sp.at(idx)), 'history': 'parse, mutate, parse, mutate, parse' if kind == 'parse'
                         else 'stringify, mutate, stringify, stringify(fresh copy)'})
+    return acc.result()
+
+
+# ---------------------------------------------------------------------------------------------------------------------
+# failed calls must leave nothing behind
+
+
+OFFENDERS = [('inf', float('inf')), ('-inf', float('-inf')), ('nan', float('nan'))]
+OFFENDER_POSITIONS = ['top', 'arr-after', 'arr-before', 'arr-nested', 'obj-first', 'obj-last', 'obj-nested', 'arr-in-obj', 'obj-in-arr']
+CYCLES = ['self-array', 'self-array-after', 'self-object', 'array-in-object-in-array', 'object-in-array-in-object', 'two-step-array']
+OTHER_FAILS = ['mixed-keys']
+FAIL_KINDS = [f'{o}@{p}' for o, _x in OFFENDERS for p in OFFENDER_POSITIONS] + CYCLES + OTHER_FAILS
+N_FAIL_KINDS = 3 * 9 + 6 + 1
+FAIL_HISTORIES = ['F-O', 'F-F-O', 'O-F-O']
+BAD_TEXTS = ['', '[1,', '{"a"}', '[1] x', '{"a":1,}', 'nul', '"abc', '[1 2]', "['a']", '{a:1}']
+FAILPARSE_HISTORIES = ['B-T', 'B-B-T', 'T-B-T']
+
+
+def ok_space(tier):
+    """The 'good' values of the fail histories."""
+    if tier == 'thorough':
+        return hist_space('quick')
+    key = ('ok', tier)
+    if key not in _CACHE:
+        pool = HIST_TOP_LEAVES + [[], {}, [1.5], {'a': 'x'}]
+        _CACHE[key] = Union([ArrSpace(pool, 2), ObjSpace(HIST_KEYS, pool, 2)])
+    return _CACHE[key]
+
+
+def ok_size(tier):
+    return hist_size('quick') if tier == 'thorough' else (1 + 7 + 49) + 8 ** 2
+
+
+def build_fail(kind, o):
+    """-> (value that cannot be serialised, repair) where `o` (a good value, possibly a container) is a member of it whenever the
+    shape has room; repair() removes the offending member from the *same* container objects and returns the now good value
+    (None when there is nothing left to repair, i.e. the offender is the whole value)."""
+    if '@' in kind:
+        name, pos = kind.split('@')
+        x = dict(OFFENDERS)[name]
+        if pos == 'top':
+            return x, None
+        if pos == 'arr-after':
+            v = [o, x]
+            return v, lambda: (v.pop(), v)[1]
+        if pos == 'arr-before':
+            v = [x, o]
+            return v, lambda: (v.pop(0), v)[1]
+        if pos == 'arr-nested':
+            inner = [x]
+            v = [inner, o]
+            return v, lambda: (inner.pop(), v)[1]
+        if pos == 'obj-first':
+            v = {'b': o, 'a': x}
+            return v, lambda: (v.pop('a'), v)[1]
+        if pos == 'obj-last':
+            v = {'a': o, 'b': x}
+            return v, lambda: (v.pop('b'), v)[1]
+        if pos == 'obj-nested':
+            inner = {'b': x}
+            v = {'a': inner, 'z': o}
+            return v, lambda: (inner.pop('b'), v)[1]
+        if pos == 'arr-in-obj':
+            inner = [o, x]
+            v = {'a': inner}
+            return v, lambda: (inner.pop(), v)[1]
+        inner = {'a': x, 'b': o}
+        v = [inner]
+        return v, lambda: (inner.pop('a'), v)[1]
+    if kind == 'self-array':
+        v = [o]
+        v.append(v)
+        return v, lambda: (v.pop(), v)[1]
+    if kind == 'self-array-after':
+        v = []
+        v.append(v)
+        v.append(o)
+        return v, lambda: (v.pop(0), v)[1]
+    if kind == 'self-object':
+        v = {'b': o}
+        v['a'] = v
+        return v, lambda: (v.pop('a'), v)[1]
+    if kind == 'array-in-object-in-array':
+        v = [o]
+        inner = {'a': v}
+        v.append(inner)
+        return v, lambda: (inner.pop('a'), v)[1]
+    if kind == 'object-in-array-in-object':
+        v = {'b': o}
+        inner = [v]
+        v['a'] = inner
+        return v, lambda: (inner.pop(), v)[1]
+    if kind == 'two-step-array':
+        v = [o]
+        inner = [v]
+        v.append(inner)
+        return v, lambda: (inner.pop(), v)[1]
+    v = {'a': o, 1: 2}
+    return v, lambda: (v.pop(1), v)[1]
+
+
+def try_stringify(v, indent):
+    """The outcome of a call that is expected to fail is not compared: ('text', t) | ('null',) | ('raise', class)."""
+    try:
+        t = stringify(v, indent)
+    except Exception as exc:  # pylint: disable=broad-exception-caught
+        return ('raise', type(exc).__name__)
+    return ('text', t) if isinstance(t, str) else ('other', type(t).__name__)
+
+
+_FAIL_SCRIPT = ("s0 = if(first != null, if(ind == null, jsonStringify(first), jsonStringify(first, ind)), null)\n"
+                "f1 = if(ind == null, jsonStringify(f1v), jsonStringify(f1v, ind))\n"
+                "f2 = if(f2v != null, if(ind == null, jsonStringify(f2v), jsonStringify(f2v, ind)), null)\n"
+                "fixed = repairIt()\n"
+                "s1 = if(fixed != null, if(ind == null, jsonStringify(fixed), jsonStringify(fixed, ind)), null)\n"
+                "fixed2 = repairIt2()\n"
+                "s1b = if(fixed2 != null, if(ind == null, jsonStringify(fixed2), jsonStringify(fixed2, ind)), null)\n"
+                "s2 = if(ind == null, jsonStringify(oo), jsonStringify(oo, ind))\n"
+                "dropIt()\n"
+                "s3 = if(ind == null, jsonStringify(freshIt()), jsonStringify(freshIt(), ind))\n"
+                "return arrayNew(s0, f1, f2, s1, s2, s3, s1b)")
+
+
+def check_hfail(case, acc):
+    """Histories around a failing jsonStringify. `o` is a good value that is also a member of the failing value.
+    F-O: fail(f); ok.   F-F-O: fail(f); fail(next kind); ok.   O-F-O: ok(o); fail(f); ok.
+    ok = the same containers with the offending member removed, o itself, and a fresh copy of o built after the failing values were dropped."""
+    tier, hist, via, indent = case['tier'], case['hist'], case['via'], case['indent']
+    kind = FAIL_KINDS[case['fail']]
+    orig = ok_space(tier).at(case['idx'])
+    o = clone(orig)
+    state = {}
+    f1, state['repair'] = build_fail(kind, o)
+    has_repair = state['repair'] is not None
+    f2 = None
+    if hist == 'F-F-O':
+        f2, state['repair2'] = build_fail(FAIL_KINDS[(case['fail'] + 1) % len(FAIL_KINDS)], o)
+
+    def do_repair(*_args):
+        state['fixed'] = state['repair']() if has_repair else None
+        state['snap'] = clone(state['fixed'])
+        return state['fixed']
+
+    def do_repair2(*_args):
+        # every failing value of the history is repaired and serialised again inside the same case, so that whatever a failed
+        # call leaves behind is noticed by the case that created it (and replays on its own)
+        state['fixed2'] = state['repair2']() if state.get('repair2') is not None else None
+        state['snap2'] = clone(state['fixed2'])
+        return state['fixed2']
+
+    def do_drop(*_args):
+        state.pop('fixed', None)       # the failing containers (cycle already broken by the repair) become garbage here
+        state.pop('repair', None)
+        state.pop('fixed2', None)
+        state.pop('repair2', None)
+        return None
+
+    def do_fresh(*_args):
+        return clone(orig)
+
+    if via == 'direct':
+        s0 = try_stringify(o, indent) if hist == 'O-F-O' else None
+        out1 = try_stringify(f1, indent)
+        out2 = try_stringify(f2, indent) if f2 is not None else None
+        del f1, f2
+        fixed = do_repair()
+        s1 = try_stringify(fixed, indent) if has_repair else None
+        del fixed
+        fixed2 = do_repair2()
+        s1b = try_stringify(fixed2, indent) if fixed2 is not None else None
+        del fixed2
+        s2 = try_stringify(o, indent)
+        do_drop()
+        s3 = try_stringify(do_fresh(), indent)
+        acc.evals += 7
+    else:
+        glob = {'first': o if hist == 'O-F-O' else None, 'f1v': f1, 'f2v': f2, 'oo': o, 'ind': indent,
+                'repairIt': do_repair, 'repairIt2': do_repair2, 'dropIt': do_drop, 'freshIt': do_fresh}
+        del f1, f2
+        res = impl()['bs'].execute_script(_fail_script(), {'globals': glob})
+        glob.clear()
+        acc.evals += 7
+        if not (isinstance(res, list) and len(res) == 7):
+            acc.violation(case, 'seven results', res, 'the failure-history script did not run as written')
+            return ('bad',)
+        wrap = lambda t: ('text', t) if isinstance(t, str) else ('null',)
+        s0 = wrap(res[0])
+        out1, out2 = wrap(res[1]), (wrap(res[2]) if hist == 'F-F-O' else None)
+        s1 = wrap(res[3]) if has_repair else None
+        s2, s3 = wrap(res[4]), wrap(res[5])
+        s1b = wrap(res[6]) if state.get('snap2') is not None else None
+    c2 = dict(case, fail_kind=kind, ok=label_of(orig), fail_outcome=out1[0])
+    if hist == 'O-F-O' and not (s0[0] == 'text' and decodes_to(s0[1], orig)):
+        acc.violation(c2, orig, s0, 'jsonStringify(o) does not decode to o (before anything failed in this history)')
+        return ('bad',)
+    if s1 is not None and not (s1[0] == 'text' and decodes_to(s1[1], state['snap'])):
+        acc.violation(c2, state['snap'], s1, 'after a failed jsonStringify, the same containers with the offending member removed do not serialise faithfully')
+    if s1b is not None and not (s1b[0] == 'text' and decodes_to(s1b[1], state['snap2'])):
+        acc.violation(c2, state['snap2'], s1b, 'after two failed jsonStringify calls, the containers of the second failing value with the offending member removed do not serialise faithfully')
+    if not (s2[0] == 'text' and decodes_to(s2[1], orig)):
+        acc.violation(c2, orig, s2, 'after a failed jsonStringify, a good value that was a member of the failing value does not serialise faithfully')
+    if not (s3[0] == 'text' and decodes_to(s3[1], orig)):
+        acc.violation(c2, orig, s3, 'after a failed jsonStringify (failing values dropped), a fresh good value does not serialise faithfully')
+    return (out1[0], None if out2 is None else out2[0])
+
+
+def _fail_script():
+    if 'fail_script' not in _IMPL:
+        _IMPL['fail_script'] = impl()['bs'].parse_script(_FAIL_SCRIPT)
+    return _IMPL['fail_script']
+
+
+def try_parse(text, via):
+    im = impl()
+    try:
+        if via == 'direct':
+            return ('value', im['F']['jsonParse']([text], None))
+        return ('value', im['bs'].execute_script(im['p_global'], {'globals': {'tt': text}}))
+    except Exception as exc:  # pylint: disable=broad-exception-caught
+        return ('raise', type(exc).__name__)
+
+
+def check_hfailparse(case, acc):
+    """Histories around a failing jsonParse: B-T: parse(bad); parse(T).  B-B-T: two bad texts first.  T-B-T: parse(T); parse(bad); parse(T)."""
+    tier, hist, via = case['tier'], case['hist'], case['via']
+    v = ok_space(tier).at(case['idx'])
+    text = ref_text(v)
+    bad = BAD_TEXTS[case['bad']]
+    bad2 = BAD_TEXTS[(case['bad'] + 1) % len(BAD_TEXTS)]
+    if 'p_global' not in _IMPL:
+        _IMPL['p_global'] = impl()['bs'].parse_script('return jsonParse(tt)')
+    steps = {'B-T': [bad, text], 'B-B-T': [bad, bad2, text], 'T-B-T': [text, bad, text]}[hist]
+    results = [try_parse(str(t), via) for t in steps]
+    results.append(try_parse(str(text), via))
+    acc.evals += len(results)
+    c2 = dict(case, text=text, bad_text=bad)
+    good = []
+    for t, r in zip(steps + [text], results):
+        if t is text or t == text:
+            if r[0] != 'value' or not jl.equal(r[1], v):
+                acc.violation(c2, v, r, 'jsonParse(T) around a failed jsonParse is not the value of T')
+                return ('bad',)
+            good.append(r[1])
+    if any(shares(good[i], good[j]) for i in range(len(good)) for j in range(i + 1, len(good))):
+        acc.violation(c2, 'fresh containers', 'shared container', 'two calls of jsonParse(T) returned the same container object')
+    first_bad = next(r for t, r in zip(steps, results) if t is bad)
+    return (first_bad[0] if first_bad[0] == 'raise' or first_bad[1] is not None else 'null',)
+
+
+def fam_history_fail(arg):
+    tier, kind, start, stop = arg
+    acc = Acc('history')
+    sp = ok_space(tier)
+    for idx in range(start, stop):
+        if kind == 'fail':
+            for fk in range(len(FAIL_KINDS)):
+                for hist in FAIL_HISTORIES:
+                    for via in HIST_VIAS:
+                        for indent in HIST_INDENTS:
+                            acc.cases += 1
+                            out = check_hfail({'kind': 'fail', 'tier': tier, 'idx': idx, 'fail': fk, 'hist': hist, 'via': via, 'indent': indent}, acc)
+                            if out[0] in ('raise', 'null', 'other'):
+                                acc.nontrivial += 1          # the call that should fail did fail
+                            acc.outcome((out, hist))
+        else:
+            for bk in range(len(BAD_TEXTS)):
+                for hist in FAILPARSE_HISTORIES:
+                    for via in HIST_VIAS:
+                        acc.cases += 1
+                        out = check_hfailparse({'kind': 'failparse', 'tier': tier, 'idx': idx, 'bad': bk, 'hist': hist, 'via': via}, acc)
+                        if out[0] in ('raise', 'null'):
+                            acc.nontrivial += 1
+                        acc.outcome((out, hist, bk))
+        if idx == start:
+            acc.sample({'kind': kind, 'ok_value': label_of(sp.at(idx)), 'fail_kinds': FAIL_KINDS[:3] + CYCLES[:2] if kind == 'fail' else BAD_TEXTS[:4]})
     return acc.result()
 
 
@@ -927,11 +1209,18 @@ def families(tier):
     per = len(TARGETS) * len(MUTATIONS) * len(HIST_VIAS)
     hshards = [(tier, 'parse', r[0], r[-1] + 1) for r in split(list(range(nh)), 8)] + \
               [(tier, 'stringify', r[0], r[-1] + 1) for r in split(list(range(nh)), 12)]
+    nok = ok_size(tier)
+    hshards += [(tier, 'fail', r[0], r[-1] + 1) for r in split(list(range(nok)), 16)] + \
+               [(tier, 'failparse', r[0], r[-1] + 1) for r in split(list(range(nok)), 4)]
+    nfail = nok * N_FAIL_KINDS * len(FAIL_HISTORIES) * len(HIST_VIAS) * len(HIST_INDENTS)
+    nfailparse = nok * len(BAD_TEXTS) * len(FAILPARSE_HISTORIES) * len(HIST_VIAS)
     fams.append(Family('history', fam_history, hshards,
                        f'{nh} arrays/objects of depth <= 2 over {HIST_TOP_LEAVES} / {HIST_LEAVES[tier]} x target {TARGETS} x mutation {MUTATIONS} x '
                        f'{HIST_VIAS}: parse-mutate-parse-mutate-parse; stringify-mutate-stringify-stringify(copy) with indent in {HIST_INDENTS} '
-                       '(inapplicable target/mutation combinations pruned)',
-                       expected=nh * per * (1 + len(HIST_INDENTS))))
+                       f'(inapplicable target/mutation combinations pruned); failed calls: {nok} good values x {N_FAIL_KINDS} unserialisable values '
+                       f'(inf/-inf/nan in 9 positions, 6 cycles, mixed keys; the good value is a member of the failing one) x {FAIL_HISTORIES} x {HIST_VIAS} x '
+                       f'indent {HIST_INDENTS}; {len(BAD_TEXTS)} invalid texts x {FAILPARSE_HISTORIES} x {HIST_VIAS} for jsonParse',
+                       expected=nh * per * (1 + len(HIST_INDENTS)) + nfail + nfailparse))
     npv = len(PAIR_LEAVES) * len(PAIR_CONTEXTS[tier])
     fams.append(Family('pairs', fam_pairs, [(tier, r) for r in split(list(range(npv)), 11)],
                        f'every ordered pair of {npv} values ({len(PAIR_LEAVES)} colliding leaves 1/1.0/true/"1"/null/0/false/""/-0.0/"true"/"null" x contexts '
@@ -976,7 +1265,7 @@ def replay(family, case):
     if family == 'inject':
         check_inject(case, acc)
     elif family == 'history':
-        (check_hparse if case['kind'] == 'parse' else check_hstringify)(case, acc)
+        {'parse': check_hparse, 'stringify': check_hstringify, 'fail': check_hfail, 'failparse': check_hfailparse}[case['kind']](case, acc)
     elif family == 'pairs':
         check_pair(case, acc)
     elif family == 'indents':
